@@ -16,7 +16,14 @@ let handle (toks : string list) : string =
            let tr = parse_trace tbl obs in
            (match chk_C08 c (zs base) tr with
             | Some cl -> "chk " ^ string_of_sclause cl
-            | None -> if quiet_violated c.sooo (zs base) tr then "chk watermark_not_redelivered" ^ (if model <> impl then " (and model differs)" else "") else
+            | None ->
+                      (* rows ingested during a delivery inside the current slot (Spec/SlideKeptSpec.v) *)
+                      match chk_C08_kept c (zs base) tr with
+                      | Some ((id, ts), a) ->
+                          Printf.sprintf "chk kept_row_interval_lost row=%d ts=%d interval_start=%d%s" (int_of_z id) (int_of_z ts) (int_of_z a)
+                            (if model <> impl then " (and model differs)" else "")
+                      | None ->
+                      if quiet_violated c.sooo (zs base) tr then "chk watermark_not_redelivered" ^ (if model <> impl then " (and model differs)" else "") else
                       if model <> impl then "diff sliding_trace model=" ^ model
                       else if List.exists (function EvBatch b -> List.length b.b_rows >= 2 | _ -> false) tr then "ok nt" else "ok")
        | _ -> "bad line")
